@@ -485,6 +485,37 @@ pub fn c09_class(asts: &[Seq], ancestor: &str) -> Option<String> {
     None
 }
 
+/// The language the recorded encoder gives an expression, with each subset of the recorded
+/// encoder deviations (D1 rooted-first tree, D4 nested tree position): the recorded findings of the
+/// ANALYSES (exhaustiveness, depth) are attributed only where the implementation's language is one
+/// of these - the recorded encoder, or the encoder with one or both of those findings repaired.
+pub fn encoder_mirrors(ast: &Seq) -> Vec<(Dfa, bool, bool)> {
+    let mut out = vec![];
+    for (d1, d4) in [(true, true), (false, true), (true, false), (false, false)] {
+        let dev = refmodel::lang::Deviations { d1, d2: false, d3: false, d4 };
+        if let refmodel::lang::Spec::Specified(r) = refmodel::lang::reference(ast, &dev) {
+            if let Ok(d) = Dfa::new(&r.regex) {
+                out.push((d, r.u2, r.u3));
+            }
+        }
+    }
+    out
+}
+
+/// true when no mirror could be built (nothing to disagree with) or some mirror answers every
+/// judged path as the implementation does
+pub fn agrees_with_some_mirror(mirrors: &[(Dfa, bool, bool)], paths: &[&str], is_match: &dyn Fn(&str) -> bool) -> bool {
+    if mirrors.is_empty() {
+        return true;
+    }
+    mirrors.iter().any(|(d, u2, u3)| {
+        paths.iter().all(|x| {
+            let unjudged = (*u2 && x.starts_with('/')) || (*u3 && !x.starts_with('/')) || x.contains("//");
+            unjudged || d.accepts(x) == is_match(x)
+        })
+    })
+}
+
 fn c09_check_program(
     rep: &Report,
     c: &mut Counters,
@@ -520,8 +551,8 @@ fn c09_check_program(
     }
     let mut sound = true;
     let mut seen_classes: Vec<Option<String>> = vec![];
-    // the encoder's mirror of this expression, built once, when the first witness needs it
-    let mut mirror: Option<Option<(Dfa, bool, bool)>> = None;
+    // the encoder's mirrors of this expression, built once, when the first witness needs them
+    let mut mirror: Option<Vec<(Dfa, bool, bool)>> = None;
     for (i, (t, (cs, anc))) in ex.states.iter().enumerate() {
         if !(cs.is_canonical_end() && *anc && !automata::acc(&[dfa], t, 0)) {
             continue;
@@ -552,20 +583,8 @@ fn c09_check_program(
                 // answers differently from the encoder's mirror comes from a changed language and
                 // is not attributed to them.
                 if class.is_some() && asts.len() == 1 {
-                    let m = mirror.get_or_insert_with(|| {
-                        let dev = refmodel::lang::Deviations { d1: true, d2: false, d3: false, d4: true };
-                        match refmodel::lang::reference(&asts[0], &dev) {
-                            refmodel::lang::Spec::Specified(r) => Dfa::new(&r.regex).ok().map(|d| (d, r.u2, r.u3)),
-                            _ => None,
-                        }
-                    });
-                    let disagrees = m.as_ref().map_or(false, |(d, u2, u3)| {
-                        [p.as_str(), q.as_str()].iter().any(|x| {
-                            let unjudged = (*u2 && x.starts_with('/')) || (*u3 && !x.starts_with('/')) || x.contains("//");
-                            !unjudged && d.accepts(x) != is_match(x)
-                        })
-                    });
-                    if disagrees {
+                    let ms = mirror.get_or_insert_with(|| encoder_mirrors(&asts[0]));
+                    if !agrees_with_some_mirror(ms, &[p.as_str(), q.as_str()], is_match) {
                         class = None;
                     }
                 }
@@ -804,7 +823,7 @@ fn c10_check_program(
         }
     }
     bump(c, "depth_checked", 1);
-    let mut mirror: Option<Option<(Dfa, bool, bool)>> = None;
+    let mut mirror: Option<Vec<(Dfa, bool, bool)>> = None;
     for (i, comps) in witnesses {
         let p = ex.access(i);
         let a = is_match(&p);
@@ -830,18 +849,8 @@ fn c10_check_program(
         // implementation answers differently from the encoder's mirror comes from a changed
         // language and is not attributed to them
         let class = if class.is_some() && patterns.len() == 1 {
-            let m = mirror.get_or_insert_with(|| {
-                let dev = refmodel::lang::Deviations { d1: true, d2: false, d3: false, d4: true };
-                match syntax::parse(patterns[0]).ok().map(|a| refmodel::lang::reference(&a, &dev)) {
-                    Some(refmodel::lang::Spec::Specified(r)) => Dfa::new(&r.regex).ok().map(|d| (d, r.u2, r.u3)),
-                    _ => None,
-                }
-            });
-            let disagrees = m.as_ref().map_or(false, |(d, u2, u3)| {
-                let unjudged = (*u2 && p.starts_with('/')) || (*u3 && !p.starts_with('/')) || p.contains("//");
-                !unjudged && d.accepts(&p) != is_match(&p)
-            });
-            if disagrees { None } else { class }
+            let ms = mirror.get_or_insert_with(|| syntax::parse(patterns[0]).map(|a| encoder_mirrors(&a)).unwrap_or_default());
+            if !agrees_with_some_mirror(ms, &[p.as_str()], is_match) { None } else { class }
         }
         else {
             class
